@@ -1031,6 +1031,14 @@ class Model:
                         # Don't do anything for now, we only eliminate alg_states
                         pass
 
+                    elif other_state.name() in self.alias_relation.aliases(
+                        alg_state.name()
+                    ) or other_state.name() in self.alias_relation.aliases("-" + alg_state.name()):
+                        # The two states are already aliases of each other (with either
+                        # sign). The equation is then redundant, or forces both to zero;
+                        # it cannot eliminate another variable, so keep it.
+                        pass
+
                     else:
                         # Eliminate alg_state by aliasing it to other_state
                         if negative_alias:
